@@ -314,6 +314,9 @@ def check_merger(case, ctx):
     winputs = next(c["inputs"] for c in spec["comps"] if c["kind"] == "wsum")
     src = {l[4]: l[0] for l in spec["links"] if l[3] == wname}
     out_unit = units[src[winputs[0]]]
+    wscale = spec.get("wscale", 1.0)  # all weights scaled through a Scale adapter (tiny but non-zero weights)
+    if wscale != 1.0:
+        ctx.event("tiny-weights")
 
     def nearest(p, t):
         d = [abs(x - t) for x in pubs[p]]
@@ -328,7 +331,7 @@ def check_merger(case, ctx):
             for tv in nearest(pv, t):
                 for tw in nearest(pw, t):
                     v = hu.convert(vals[pv](tv), units[pv], out_unit) if not hu.equivalent(units[pv], out_unit) else vals[pv](tv)
-                    nxt += [r + v * vals[pw](tw) for r in res]
+                    nxt += [r + v * (vals[pw](tw) * wscale) for r in res]
             res = nxt
         return res
 
@@ -351,7 +354,7 @@ def check_merger(case, ctx):
                 ctx.violation("merger-units", f"{cons} at {t}: WeightedSum delivered units {gu!r}, inputs have {sorted(set(units[src[n]] for n in winputs))}" + info)
                 return
             got_in = got if hu.equivalent(gu, out_unit) else hu.convert(got, gu, out_unit)
-            if not any(abs(got_in - e) <= 1e-9 * max(1.0, abs(e)) for e in exp):
+            if not any(abs(got_in - e) <= 1e-9 * abs(e) + 1e-300 for e in exp):  # all terms are positive: no cancellation
                 ctx.violation("merger-value", f"{cons} at {t}: WeightedSum delivered {got} {gu}, expected {exp[:3]} {out_unit}" + info)
                 return
             checked += 1
@@ -391,9 +394,10 @@ def merger_spec(draw):
     for c in comps:
         if c["kind"] == "model" and int(c["name"][1:]) in used_v:
             c["units"] = draw(st.sampled_from(grp))
+    wscale = draw(st.sampled_from([1.0, 1.0, 1.0, 1.0e-12, 1.0e-11, 1.0e-6]))
     for n, pv, pw in zip(inputs, used_v, used_w):
         links.append([f"P{pv}", "o", draw(st.sampled_from([[], [], [["scale", 1.0]]])), "W", n])
-        links.append([f"P{pw}", "o", [], "W", n + "_weight"])
+        links.append([f"P{pw}", "o", [] if wscale == 1.0 else [["scale", wscale]], "W", n + "_weight"])
     ncons = draw(st.integers(1, 2))
     cstep = draw(st.lists(st.integers(1, 5), min_size=1, max_size=2))
     for k in range(ncons):
@@ -401,7 +405,7 @@ def merger_spec(draw):
         links.append(["W", "WeightedSum", [], f"C{k}", "i0"])
     order = draw(st.permutations([c["name"] for c in comps]))
     links = draw(st.permutations(links))
-    return {"comps": comps, "links": [list(l) for l in links], "order": list(order), "end": draw(st.integers(5, 25)), "excluded": []}
+    return {"comps": comps, "links": [list(l) for l in links], "order": list(order), "end": draw(st.integers(5, 25)), "excluded": [], "wscale": wscale}
 
 
 def parts():
